@@ -110,7 +110,21 @@ theorem C01_flush_kickers_example (cfg : Cfg) :
     compare (best5 (Cfg.isShort cfg) witnessA) (best5 (Cfg.isShort cfg) witnessB) = .gt := by
   cases cfg <;> decide
 
--- non-vacuity: the two flushes are valid hands of both decks; relabeling spades→hearts maps one suit to the other
+-- non-vacuity of the main theorem and of the lift: a seven-card hand (As Ks Qs Js 9s + 9h 9d: flush beats
+-- trips) against the eight-high-kicker flush; both sides evaluate, and the theorem applies
+def sevenCards : Nat := witnessA + 2^30 + 2^29
+example : ValidHand .std sevenCards ∧ ValidHand .short sevenCards := by unfold ValidHand; decide
+example : compareHands .std sevenCards witnessB = compare (best5 false sevenCards) (best5 false witnessB) :=
+  C01_strength_order .std _ _ (by unfold ValidHand; decide) (by unfold ValidHand; decide)
+example : compareHands .std sevenCards witnessB = .gt ∧ compareHands .short witnessB sevenCards = .lt := by decide
+example : best5 false sevenCards = specA .std (α sevenCards) ∧ (α sevenCards).fl ≠ none := by decide
+-- short deck: A-6-7-8-9 is the lowest straight and a flush beats a full house
+example : (strength .short (2^48 + 2^17 + 2^22 + 2^27 + 2^28)).idx = variantIdx .short cStraight ∧
+    (strength .short (2^48 + 2^17 + 2^22 + 2^27 + 2^28)).r1 = 7 := by decide
+example : compareHands .short witnessB (2^48 + 2^49 + 2^50 + 2^44 + 2^45) = .gt ∧
+    compareHands .std witnessB (2^48 + 2^49 + 2^50 + 2^44 + 2^45) = .lt := by decide
+
+-- the two flushes are valid hands of both decks; relabeling spades→hearts maps one suit to the other
 example : ValidHand .std witnessA ∧ ValidHand .short witnessB := by unfold ValidHand; decide
 example : relabel [3, 2, 1, 0] witnessA = 2^48 + 2^44 + 2^40 + 2^36 + 2^28 := by decide
 example : (α witnessA).fl = some (2^12 + 2^11 + 2^10 + 2^9 + 2^7) := by decide
